@@ -43,12 +43,15 @@ def hostile_bounds(rng, N):
     return lo, hi
 
 
-def base_scn(rng, N, iters, refine=False, hostile=False):
+def base_scn(rng, N, iters, refine=False, hostile=False, scaled=None):
     lo, hi, kind = scenario.gen_box(rng, N, "float")
     if hostile:
         lo, hi = hostile_bounds(rng, N)
         kind = "hostile-grid"
     obj = scenario.gen_objective(rng, N, ["cones", "sines", "wells"])
+    if scaled:
+        # extreme magnitudes of the objective values (x 1e50, x 1e-50, + 1e9, integer-valued): what the console listener has to print
+        obj = {"fam": "scaled", "base": obj, "mode": scaled}
     m = 10 if N == 1 else int(rng.integers(4, 9))
     return {"N": N, "lower": lo, "upper": hi, "box": kind, "obj": obj, "r": float(rng.choice([2.0, 3.0, 4.0])),
             "eps": 1e-3 if N == 1 else max(2.0 ** -m, 0.01), "iters": iters, "m": m, "refine": refine}
@@ -244,7 +247,10 @@ def run_case(c):
     rng = scenario.rng_for(c["seed"], "C13", c["idx"])
     N = c["N"]
     iters = int(rng.integers(12, 30)) if c["kind"] != "painter" else int(rng.integers(10, 22))
-    scn = base_scn(rng, N, iters, refine=c["refine"], hostile=bool(c.get("hostile")))
+    scaled = None
+    if c["kind"] in ("console", "reuse") and c["idx"] % 3 == 0:
+        scaled = ["big", "small", "offset", "int", "big"][(c["idx"] // 3) % 5]
+    scn = base_scn(rng, N, iters, refine=c["refine"], hostile=bool(c.get("hostile")), scaled=scaled)
     if c.get("kw", {}).get("mode") == "interpolation" and N > 1:
         # a cubic interpolant needs at least 4 distinct abscissae: keep the section grid fine enough
         scn["m"] = max(scn["m"], 7)
@@ -258,6 +264,8 @@ def run_case(c):
     scn["pattern"] = BATCHINGS[c["b"]]
     viol = []
     obs = {"runs": 1}
+    if scaled:
+        obs["console_runs_with_extreme_values_" + scaled] = 1
     base = record.run_solver(scn, listener=False)
     if base.fp_exhausted:
         return {"violations": [], "obs": {"fp_domain_exhausted": 1}, "skip": "fp-domain-exhausted"}
@@ -475,7 +483,7 @@ def run_case(c):
 def finalize(obs, tier, stats):
     for k in ("before_checked", "iter_callbacks_checked", "stop_callbacks_checked", "console_reports_checked", "painter_runs", "painter_probe_calls",
               "figures_written", "refine_runs", "multi_listener_runs", "hostile_grid_boxes", "runs_with_coincident_projected_trials",
-              "listener_class_shape_0", "listener_class_shape_1", "listener_class_shape_2", "listener_class_shape_3", "console_subclass_runs", "attached_directly", "attached_through_proxy", "ambient_solvers_compared", "ambient_with_user_listeners", "console_local_counts_checked", "reused_listener_runs"):
+              "listener_class_shape_0", "listener_class_shape_1", "listener_class_shape_2", "listener_class_shape_3", "console_subclass_runs", "attached_directly", "attached_through_proxy", "ambient_solvers_compared", "ambient_with_user_listeners", "console_local_counts_checked", "reused_listener_runs", "console_runs_with_extreme_values_big", "console_runs_with_extreme_values_small"):
         if not obs.get(k):
             return "%s never observed" % k, {}
     if len(obs.get("painter_kinds", [])) < 19:
